@@ -2,7 +2,9 @@ package checks
 
 import (
 	"fmt"
+	"golang.org/x/text/unicode/norm"
 	"math"
+	"sort"
 	"strings"
 
 	"github.com/ah-naf/borno/token"
@@ -225,6 +227,54 @@ func C09(c *fw.Ctx) {
 		for _, s := range []string{string(r), "a" + string(r), string(r) + "1"} {
 			if c.Mine() {
 				lexCompare(c, s)
+			}
+		}
+	}
+	// near-keywords: for every keyword and built-in name, the spellings one edit away from it -- each
+	// character deleted, doubled, replaced by its canonical (de)composition or swapped with its neighbour;
+	// the NFC and NFD forms of the whole word; a joiner or a combining mark inserted at every position; each
+	// alone, after `a ` and before `;`: a word is a keyword exactly when it equals one
+	{
+		words := []string{}
+		for k := range model.Keywords {
+			words = append(words, k)
+		}
+		words = append(words, model.Builtins...)
+		sort.Strings(words)
+		seenW := map[string]bool{}
+		var variants []string
+		add := func(w string) {
+			if w != "" && !seenW[w] {
+				seenW[w] = true
+				variants = append(variants, w)
+			}
+		}
+		for _, w := range words {
+			rs := []rune(w)
+			add(w)
+			add(norm.NFC.String(w))
+			add(norm.NFD.String(w))
+			add(norm.NFKC.String(w))
+			for i := range rs {
+				add(string(rs[:i]) + string(rs[i+1:]))
+				add(string(rs[:i+1]) + string(rs[i:]))
+				add(string(rs[:i]) + norm.NFD.String(string(rs[i])) + string(rs[i+1:]))
+				add(string(rs[:i]) + norm.NFC.String(string(rs[i])) + string(rs[i+1:]))
+				if i+1 < len(rs) {
+					add(string(rs[:i]) + string(rs[i+1]) + string(rs[i]) + string(rs[i+2:]))
+					add(string(rs[:i]) + norm.NFC.String(string(rs[i:i+2])) + string(rs[i+2:]))
+				}
+				for _, ins := range []string{"\u200c", "\u200d", "\u09bc", "\u0301", "_", "\u09cd"} {
+					add(string(rs[:i+1]) + ins + string(rs[i+1:]))
+				}
+			}
+		}
+		c.Bound("near_keyword_spellings", len(variants))
+		for _, v := range variants {
+			for _, s := range []string{v, "a " + v, v + ";", v + "(", "1" + v} {
+				if c.Mine() {
+					lexCompare(c, s)
+				}
 			}
 		}
 	}
